@@ -19,7 +19,7 @@ import c07_cache_keys
 
 COQ_FILES = ['C07/Model.v', 'Gen/C07CacheKeys.v', 'C07/Proofs.v', 'C07/Props.v']
 IMPL = os.path.join(os.path.dirname(os.path.abspath(__file__)), 'impl_c07.py')
-WORKDIR = os.path.join(WORK, 'c07', f'run-{os.getpid()}')     # per run: concurrent checks do not share it
+WORKDIR = os.path.join(WORK, 'c07')     # common.WORK is private to this invocation and removed at exit
 KNOWN_SIG = 'C07/stale-cached-engine-after-non-rules-load'
 PAR = 4
 
@@ -206,6 +206,25 @@ def gen_universe(rnd, uid):
     files['A']['text'] = insert_rule(files['A']['text'], '', f'[Adyn {k.title()}]\nmatch: contains("{k}")\ntags: dyn, {{field.kind}}\n')
     txns.append({'description': f'APLPAY {k} WIRE MKTP', 'amount': 15.0, 'date': '2025-01-15', 'field': {'kind': 'wire'},
                  'source': 'Chase', 'location': None})
+    # supplemental rows whose `date` cell is a parsed date for some rows and the raw string for others (what
+    # load_supplemental_sources leaves for an unparseable cell); a rule comparing it with a string literal; two
+    # transactions selecting one row each — the operand's TYPE varies between evaluations of the same expression text
+    order_expr = f'contains("{k}") and any(r.date <= "2025-06-30" for r in orders if r.ref == field.ref)'
+    files['A']['text'] = insert_rule(files['A']['text'], '', f'[Aord {k.title()}]\nmatch: {order_expr}\ncategory: Orders-A\n')
+    txns.append({'description': f'{k} ORDER A1', 'amount': 31.0, 'date': '2025-01-15', 'field': {'ref': 'A1', 'kind': 'card'},
+                 'source': 'Chase', 'location': None})
+    txns.append({'description': f'{k} ORDER B2', 'amount': 32.0, 'date': '2025-01-15', 'field': {'ref': 'B2', 'kind': 'card'},
+                 'source': 'Chase', 'location': None})
+    # most_specific mode: two files sharing a character-identical match text (and let / field names) with different
+    # priorities, values and tags — what a memo keyed by expression text or by name would confuse across files
+    shared = f'contains("{k}") and n > 0'
+    files['P1'] = {'suffix': '.rules', 'mode': 'most_specific', 'text':
+                   f'[P1 {k.title()}]\nlet: n = amount * 2\nmatch: {shared}\ncategory: Prio-P1\nsubcategory: one\n'
+                   f'merchant: P1 {k}\ntags: p1, {{field.kind}}\nfield: up = uppercase(description)\npriority: 90\n'}
+    files['P2'] = {'suffix': '.rules', 'mode': 'most_specific', 'text':
+                   f'[P2 any {k.title()}]\nlet: n = amount * 3\nmatch: {shared}\ncategory: Low-P2\nsubcategory: two\n'
+                   f'merchant: P2 {k}\ntags: p2, {{source}}\nfield: up = lowercase(description)\npriority: 10\n\n'
+                   f'[P2 spec {k.title()}]\nmatch: contains("{k}5")\ncategory: Spec-P2\n'}
     # the SAME path rewritten with another rule set: A2 = A with different transforms and one more tag-only rule;
     # Am = A's text loaded in most_specific mode; M = the file deleted
     t1 = 'field.description = regex_replace(field.description, "^APLPAY\\s+", "")'
@@ -226,7 +245,9 @@ def gen_universe(rnd, uid):
             exprs.append(e)
     fexprs = ['sum(payments) > 10 and "x" in tags', 'count(payments) > 1', 'amount > 100']
     return {'id': uid, 'files': files, 'txns': txns, 'exprs': exprs, 'filter_exprs': fexprs, 'twins': twins, 'leak': leak, 'partial': partial,
-            'data_sources': {'orders': [{'item': 'Book', 'amount': 50.0}, {'item': 'Pen', 'amount': 5.0}]}}
+            'order_expr': order_expr,
+            'data_sources': {'orders': [{'item': 'Book', 'amount': 50.0, 'ref': 'A1', 'date': {'__date__': '2025-05-12'}},
+                                        {'item': 'Pen', 'amount': 5.0, 'ref': 'B2', 'date': '06/15/2025'}]}}
 
 
 def gen_op(rnd, uni, weights=(30, 35, 12, 8, 12, 3)):
@@ -268,7 +289,7 @@ def twin_histories(rnd, uni, n):
         a, b = rnd.choice(uni['twins'])
         if rnd.random() < 0.5:
             a, b = b, a
-        t = rnd.choice([nt - 3, nt - 4])
+        t = rnd.choice([nt - 5, nt - 6])
         h = [{'op': 'eval', 'src': a, 'txn': t}, {'op': 'eval', 'src': rnd.choice([b, b, ' ' + b, b + ' ']), 'txn': t}]
         if rnd.random() < 0.3:
             h.insert(0, {'op': 'load', 'file': rnd.choice(sorted(uni['files']))})
@@ -287,7 +308,7 @@ def reparse_histories(rnd, uni, n):
         if j == 0 and uni.get('leak'):
             a, b = 'A', uni['leak']
         out.append([{'op': 'engparse', 'file': a}, {'op': 'engparse', 'file': b},
-                    {'op': 'engmatch', 'txn': rnd.choice([nt - 3, nt - 4])}, {'op': 'engmatch', 'txn': rnd.randrange(nt)}])
+                    {'op': 'engmatch', 'txn': rnd.choice([nt - 5, nt - 6])}, {'op': 'engmatch', 'txn': rnd.randrange(nt)}])
     return out
 
 
@@ -296,7 +317,7 @@ def partial_variable_histories(rnd, uni, n):
     rule — through get_all_rules + normalize_merchant and through one long-lived MerchantEngine.match"""
     out = []
     nt = len(uni['txns'])
-    bad, good = nt - 2, [nt - 4, nt - 3]          # NOFIELD; the two twin transactions (field + amount present)
+    bad, good = nt - 4, [nt - 6, nt - 5]          # NOFIELD; the two twin transactions (field + amount present)
     for j in range(n):
         if not uni.get('partial'):
             break
@@ -315,7 +336,8 @@ def rewrite_histories(uni):
     match mode, or deleted) and reloaded in the CLI's order get_transforms -> get_tag_only_rules -> get_all_rules,
     then classified; and a rule with a dynamic tag classified on transactions giving different tag values"""
     nt = len(uni['txns'])
-    wire, nofield, tw1, tw2 = nt - 1, nt - 2, nt - 4, nt - 3
+    wire, nofield, tw1, tw2 = nt - 3, nt - 4, nt - 6, nt - 5
+    ord_a1, ord_b2 = nt - 2, nt - 1
     cls = [{'op': 'classify', 'txn': t} for t in (wire, tw1)]
     out = []
     pairs = [('A', 'A2'), ('A2', 'A')] + ([('A', 'Am'), ('Am', 'A')] if 'Am' in uni['files'] else []) + \
@@ -328,6 +350,20 @@ def rewrite_histories(uni):
     seq = [tw1, wire, nofield, tw2, wire]
     out.append([{'op': 'load', 'file': 'A', 'order': 'cli'}] + [{'op': 'classify', 'txn': t} for t in seq])
     out.append([{'op': 'engparse', 'file': 'A'}] + [{'op': 'engmatch', 'txn': t} for t in seq])
+    # the date-typed evaluation first, then the string-typed one of the SAME expression text — through the rule file,
+    # through one engine, through evaluate_transaction, and across a reload / another rule file
+    e = uni['order_expr']
+    out.append([{'op': 'load', 'file': 'A', 'order': 'cli'}, {'op': 'classify', 'txn': ord_a1}, {'op': 'classify', 'txn': ord_b2}])
+    out.append([{'op': 'engparse', 'file': 'A'}, {'op': 'engmatch', 'txn': ord_a1}, {'op': 'engmatch', 'txn': ord_b2}])
+    out.append([{'op': 'eval', 'src': e, 'txn': ord_a1}, {'op': 'eval', 'src': e, 'txn': ord_b2}, {'op': 'eval', 'src': e, 'txn': ord_a1}])
+    out.append([{'op': 'eval', 'src': e, 'txn': ord_a1}, {'op': 'load', 'file': 'A2', 'order': 'cli'}, {'op': 'classify', 'txn': ord_b2}])
+    # most_specific: a rule text scored under P1 (priority 90), then P2 (same text, priority 10) decides between its rules
+    for a, b in (('P1', 'P2'), ('P2', 'P1')):
+        out.append([{'op': 'load', 'file': a, 'order': 'cli'}, {'op': 'classify', 'txn': tw1}, {'op': 'classify', 'txn': wire},
+                    {'op': 'load', 'file': b, 'order': 'cli'}, {'op': 'classify', 'txn': tw1}, {'op': 'classify', 'txn': wire}])
+        out.append([{'op': 'engparse', 'file': a}, {'op': 'engmatch', 'txn': tw1}, {'op': 'engparse', 'file': b},
+                    {'op': 'engmatch', 'txn': tw1}, {'op': 'engmatch', 'txn': wire}])
+    out.append([{'op': 'engparse', 'file': 'P1'}, {'op': 'engmatch', 'txn': tw1}, {'op': 'load', 'file': 'P2'}, {'op': 'classify', 'txn': tw1}])
     return out
 
 
@@ -436,10 +472,12 @@ def signature(uni, hist, i, res, fresh):
     """A predicate over the failing comparison: the known defect is exactly 'a classification after a
     non-.rules load (CSV, unparsable, none) is answered by the engine of the last successful .rules load'."""
     o = hist[i]
-    if res[i]['frame']:
-        return 'C07/frame-' + o['op'] + ':' + '+'.join(sorted(res[i]['frame']))
-    if res[i].get('lost'):
-        return 'C07/cache-entry-removed'
+    if not differs(res[i], fresh.get(replay_prefix(hist[:i], o), o)):      # same result, but state was damaged
+        if res[i]['frame']:
+            return 'C07/frame-' + o['op'] + ':' + '+'.join(sorted(res[i]['frame']))
+        if res[i].get('lost'):
+            return 'C07/cache-entry-removed'
+        return 'C07/cached-value-mutated'
     if o['op'] != 'classify':
         return 'C07/history-dependent-' + o['op']
     loads = [j for j in range(i) if hist[j]['op'] == 'load']
@@ -465,7 +503,7 @@ def check_history(uni, hist, res, fresh):
     bad = []
     for i, o in enumerate(hist):
         fr = fresh.get(replay_prefix(hist[:i], o), o)
-        if differs(res[i], fr) or res[i]['frame'] or res[i].get('lost'):
+        if differs(res[i], fr) or res[i]['frame'] or res[i].get('lost') or res[i].get('mutated'):
             bad.append((i, signature(uni, hist, i, res, fresh)))
     return bad
 
@@ -495,7 +533,7 @@ def fails_with(uni, hist, sig, pool):
     i = len(hist) - 1
     fresh.need([(replay_prefix(hist[:i], hist[i]), hist[i])], pool)
     fr = fresh.get(replay_prefix(hist[:i], hist[i]), hist[i])
-    if not (differs(res[i], fr) or res[i]['frame'] or res[i].get('lost')):
+    if not (differs(res[i], fr) or res[i]['frame'] or res[i].get('lost') or res[i].get('mutated')):
         return False
     return signature(uni, hist, i, res, fresh) == sig
 
@@ -745,7 +783,9 @@ def main(tier):
         'EXTRACTED from source every run (tools/c07_cache_keys.py, fail closed): dict names, every syntactic use of the two caches, '
         'key = bare argument, stored value = parse+validate / re.compile(key, constant flags), parse() resets, the shape of the '
         'show-once load-error report, every writer/reader '
-        'of _cached_engine, and that get_all_rules resets it on entry (c07_history_independent_of_source type-checks only then)',
+        'of _cached_engine, the complete inventory of process-level state of expr_parser / merchant_engine / merchant_utils / modifier_parser '
+        '(module-level variables, global declarations, class-level containers, mutable defaults, caching decorators, function attributes; '
+        'ALL-CAPS constants never mutated) = what the model has, and that get_all_rules resets _cached_engine on entry (c07_history_independent_of_source type-checks only then)',
         'OUTSIDE THE PROPERTY (explicit): the stderr line `Error loading rules from <path>: ...` that get_all_rules / get_transforms / '
         'get_tag_only_rules print for an unparsable .rules file is shown once per distinct (path, message) per process '
         '(merchant_utils._reported_load_errors) and is therefore history dependent by design; it is not a classification result, is not '
@@ -756,7 +796,9 @@ def main(tier):
         'a rule FILE in the model is its content (+ match mode); the path only names where it lives: every .rules load of a process is '
         'written to one and the same path (likewise every CSV load), so a reload after a rewrite is the normal case; file content does '
         'not change between the calls of ONE load (get_transforms / get_tag_only_rules / get_all_rules, either order)',
-        'cached ASTs / compiled patterns are treated as immutable values; cache keys are str; set/dict order, object identities and message texts are not compared',
+        'cached ASTs / compiled patterns are values in the model; that the implementation never changes one after storing it is CHECKED '
+        'after every operation (ast.dump of each _expression_cache entry = dump of a new parse of its key; pattern/flags of each '
+        '_regex_cache entry = re.compile(key, re.IGNORECASE)): signature C07/cached-value-mutated; cache keys are str; set/dict order, object identities and message texts are not compared',
     ]
     tfails = regen_gen()
     res = run.proof_step(COQ_FILES, extra_trusted=[
@@ -788,7 +830,7 @@ def main(tier):
                                     'variant for which c07_before_e98b1f7_refuted holds'})
 
     rnd = random.Random(run.seed * 7919 + 7)
-    n_uni, n_hist, n_sys, n_twin = (12, 8, 2, 3) if tier == 'quick' else (120, 36, 24, 10)
+    n_uni, n_hist, n_sys, n_twin = (10, 6, 1, 3) if tier == 'quick' else (120, 36, 24, 10)
     unis = [gen_universe(rnd, i) for i in range(n_uni)]
     all_hists = []
     for i, u in enumerate(unis):
@@ -867,7 +909,7 @@ def main(tier):
         f2 = run_history(u2, replay_prefix(h2[:-1], h2[-1]) + [h2[-1]], True)[0]
         run.violation('history', {
             'kind': 'counterexample', 'universe': u2, 'history': h2, 'position': len(h2) - 1,
-            'observed_in_process': r2[-1]['out'], 'frame_changes': r2[-1]['frame'],
+            'observed_in_process': r2[-1]['out'], 'frame_changes': r2[-1]['frame'], 'mutated_cache_entries': r2[-1].get('mutated'),
             'expected_fresh_process': f2['out'], 'fresh_history': replay_prefix(h2[:-1], h2[-1]) + [h2[-1]],
             'obligation': 'c07_history_independent / c07_classify_frame on the implementation',
             'n_failing_comparisons': len(where), 'shrunk_from': pos + 1, 'broken': broken}, signature=sig)
@@ -946,7 +988,7 @@ def replay(path):
     bad = check_history(uni, hist, res, fresh)
     for i, sig in bad:
         print(json.dumps({'position': i, 'operation': hist[i], 'signature': sig, 'in_process': res[i]['out'],
-                          'frame_changes': res[i]['frame'],
+                          'frame_changes': res[i]['frame'], 'mutated_cache_entries': res[i].get('mutated'),
                           'fresh_process': fresh.get(replay_prefix(hist[:i], hist[i]), hist[i])['out']}, indent=1))
     shutil.rmtree(WORKDIR, ignore_errors=True)
     if bad:
